@@ -17,9 +17,10 @@ FUNCTIONS = ["ckl.nodes.NodeBlock.evaluate", "ckl.nodes.NodeError", "ckl.errors.
              "ckl.parser.parse_block (catch/finally clauses)", "ckl.nodes.NodeIf/NodeFor/NodeReturn/NodeBreak/NodeContinue",
              "ckl.functions.FuncLambda.execute", "ckl.interpreter.Interpreter.interpret"]
 OUTSIDE = ["the own effect of return/break/continue inside a finally part (only: it must not swallow an error in flight)",
-           "quick tier: second fault is an error or a return, first fault not a division by zero, error values of 3 kinds", "nesting deeper than the bound", "return/break/continue inside a finally part (unspecified)",
+           "quick tier: second fault is an error or a return, first fault not an undefined name / division by zero (the host-origin runtime error stands for them), error values of 3 kinds", "thorough tier: second fault not an undefined name / division by zero; depth-3 shapes with 3 kinds of error values", "nesting deeper than the bound", "return/break/continue inside a finally part (unspecified)",
            "more than two fault points firing in one run", "the hosts run.py / repl.py"]
 REACH = {"normal", "caught", "escaped", "returned"}
+CELL_SECONDS_THOROUGH = 1800
 
 
 def bounds(tier):
@@ -180,7 +181,13 @@ def run(ctx, cell):
         ctx.assume(b_or(kind2 == 0, kind2 == 3))
         ctx.assume(kind != 2)
         ctx.assume(kind != 1)          # (kinds 1, 2 and 6 are all runtime 'ERROR's; quick keeps the host-error one)          # kinds 1 and 2 are both runtime 'ERROR's; the thorough tier keeps both
-    evk = EVKINDS[ctx.choice("evk", 3 if quick else len(EVKINDS))]
+    else:
+        # thorough: the second fault is not an undefined name / division by zero (kinds 1, 2 and 6 are all
+        # runtime 'ERROR's; the first fault keeps all seven kinds)
+        ctx.assume(kind2 != 1)
+        ctx.assume(kind2 != 2)
+    deep = name.startswith("depth3")
+    evk = EVKINDS[ctx.choice("evk", 3 if (quick or deep) else len(EVKINDS))]
     ev = mkev(ctx, "ev", evk)
     ev2 = mkev(ctx, "ev2", "int")
     rv = vint(ctx.int("rv", 50, 51 if quick else 52))
